@@ -467,6 +467,11 @@ size_t varintAdaptiveDecode(const uint8_t *src, uint64_t *values,
     case VARINT_ADAPTIVE_PFOR: {
         varintPFORMeta pforMeta;
         varintPFORReadMeta(data, &pforMeta);
+        if (pforMeta.count > maxCount) {
+            /* Output buffer too small: same convention as FOR and DICT */
+            decoded = 0;
+            break;
+        }
         decoded = varintPFORDecode(data, values, &pforMeta);
 
         if (meta) {
@@ -486,9 +491,13 @@ size_t varintAdaptiveDecode(const uint8_t *src, uint64_t *values,
         varintBitmap *vb = varintBitmapDecode(data, 1024 * 1024);
         if (vb) {
             /* Extract values from bitmap */
+            /* varintBitmapToArray writes every member: size the scratch
+             * array by the cardinality, not by the caller's capacity */
+            const size_t members = varintBitmapCardinality(vb);
             size_t allocSize;
             uint16_t *shortValues = NULL;
-            if (!size_mul_overflow(maxCount, sizeof(uint16_t), &allocSize)) {
+            if (!size_mul_overflow(members > 0 ? members : 1, sizeof(uint16_t),
+                                   &allocSize)) {
                 shortValues = malloc(allocSize);
             }
 
